@@ -228,8 +228,16 @@ func (v *version) Clone() Version {
 	for k, v := range v.rollup.rollupFiles {
 		nv.rollup.rollupFiles[k] = v
 	}
-	for k, v := range v.rollup.referenceFiles {
-		nv.rollup.referenceFiles[k] = v
+	// reference files need deep copy: the edit logs are applied to the clone while the current version
+	// is read by other goroutines(rollup jobs of other source families), and old versions must not change.
+	for store, families := range v.rollup.referenceFiles {
+		newFamilies := make(map[FamilyID][]table.FileNumber, len(families))
+		for familyID, files := range families {
+			newFiles := make([]table.FileNumber, len(files))
+			copy(newFiles, files)
+			newFamilies[familyID] = newFiles
+		}
+		nv.rollup.referenceFiles[store] = newFamilies
 	}
 	for k, v := range v.sequences {
 		nv.sequences[k] = v
